@@ -1,7 +1,7 @@
 (* C20 -- with -c every eligible instruction is compressed and nothing grows.  Statements only. *)
-From Coq Require Import ZArith List String.
+From Coq Require Import ZArith List String Lia.
 From BB Require Import Base.PyBase Gen.Encoders Gen.Criteria Spec.RV32 Spec.RVC Spec.Operands Spec.Legal
-  Model.Items Model.Encode Model.Passes Proofs.Layout Proofs.LayoutInst Proofs.Rules Proofs.RulesMain.
+  Model.Items Model.Encode Model.Passes Proofs.Layout Proofs.LayoutInst Proofs.Rules Proofs.RulesMain Proofs.Pipeline Proofs.Monotone Proofs.Examples.
 Import ListNotations.
 Open Scope Z_scope.
 
@@ -38,8 +38,37 @@ Print Assumptions C20_pseudo_never_grows.
 Theorem C20_align_never_grows : rule_ok align_rule.
 Proof. exact align_rule_ok. Qed.
 Print Assumptions C20_align_never_grows.
-(* NOT proved: the whole-program comparison |output with -c| <= |output without| and label-wise monotonicity (a two-run
-   simulation); that half of C20 is decided by the falsifier only -- see DESIGN.md. *)
+
+(* THE SECOND HALF, whole program: for EVERY program without call / tail pseudo-instructions, any initial constants and labels:
+   if it assembles in both modes, then with -c every label of the program stands at an offset no greater than without, and the
+   binary is not longer.  (Two-run argument: both runs make, out of the same list after alias resolution, one group of items
+   per source item; without compression a group has exactly the size psz of its item, with compression at most that -- the li
+   near/far choice is the same in both modes because it is taken on constants only (li_dec); the layout after alignment is
+   monotone in the group sizes because the offset after `align N` is monotone in the offset before it.)
+   call / tail are excluded: their near/far choice is taken on ESTIMATED distances that differ between the modes; for them this
+   half is decided by the falsifier only -- see DESIGN.md. *)
+Theorem C20_never_longer_no_label_higher :
+  forall its consts0 labels0 rU rC,
+    nonneg its -> Monotone.no_calls its ->
+    assemble_items its consts0 labels0 false = Done rU -> assemble_items its consts0 labels0 true = Done rC ->
+    (forall L a b, In L (gnames its) -> assoc_str L (r_labels rU) = Some a -> assoc_str L (r_labels rC) = Some b -> b <= a) /\
+    fold_right (fun c acc => Pipeline.chunk_len (snd c) + acc) 0 (r_chunks rC)
+      <= fold_right (fun c acc => Pipeline.chunk_len (snd c) + acc) 0 (r_chunks rU).
+Proof. exact Monotone.compression_monotone. Qed.
+Print Assumptions C20_never_longer_no_label_higher.
+Example C20_never_longer_example :          (* add / L: / li (far) / align 8 / M: / dw : hypotheses hold, labels really move *)
+  let its := [(exL 1, exR3 "add" "x8" "x8" "x9"); (exL 2, ILabel "L");
+              (exL 3, IPseudo "li" ["t0"; "0x12345"] (POk (EArith (ANum 74565))));
+              (exL 4, IPseudo "li" ["x9"; "5"] (POk (EArith (ANum 5))));
+              (exL 5, IAlign 8); (exL 6, ILabel "M"); (exL 7, IShort "dw" (FExpr (EArith (AName "M"))))]%string in
+  nonneg its /\ Monotone.no_calls its /\
+  (exists rU, assemble_items its [] [] false = Done rU /\ r_labels rU = [("L", 4); ("M", 16)]%string) /\
+  (exists rC, assemble_items its [] [] true = Done rC /\ r_labels rC = [("L", 2); ("M", 16)]%string).
+Proof.
+  cbv zeta. split. { repeat constructor; try (unfold isz; simpl; lia); try (intros ? H; inversion H; subst; lia); intros ? H; discriminate. }
+  split. { repeat constructor; intro H; discriminate. }
+  split; eexists; split; vm_compute; reflexivity.
+Qed.
 
 Example C20_example : select_num criteria ex_view = Some "c.addi"%string /\ wf_view ex_view /\ regs_ok ex_view.
 Proof. exact ex_view_selected. Qed.
